@@ -276,6 +276,7 @@ impl HomopolyPairHMM {
         for &m in &MATCH_STATES {
             v[prev][m][0] = LogProb::from(Prob(1. / 4.));
         }
+        min_edit_dist[prev][0] = 0;
 
         for i in 0..len_x {
             if free_start_gap_x {
